@@ -17,6 +17,7 @@ RULE = ("correspondence: operation sequences on tanks, queue tanks, plain and qu
         "exactly with the models. monitor: random whole models are run for three timesteps, then over every arc a pull check X is "
         "followed by a pull request y in {X/2, X, 2X+1, 1/3} (reply must be min(y, X)) and a push check X by a push of volume y "
         "(remainder must be max(y - X, 0)), twice per arc and direction; travel-time arcs only when nothing is queued. "
+        "garden irrigation: real Land / GardenSurface / ResidentialDemand objects (floating point), soils from dry to saturated, 2-4 rounds of check -> request with the tag (Demand, Garden) after the land has run each of 1-4 timesteps. "
         "non-trivial = distinct case with >= 3 operations / model with >= 4 nodes")
 
 
@@ -27,6 +28,13 @@ def main():
     replay = os.environ.get("VERIF_REPLAY")
     if replay:
         body = json.load(open(replay))
+        if body.get("kind") == "counterexample" and body.get("part") == "garden":
+            import mon_garden
+            bad, k, pos = mon_garden.run_case(body["case"])
+            for m in bad[:3]:
+                rep.violation("counterexample", f"C07 monitor (garden irrigation, replay): {m}", {"part": "garden", "case": body["case"]}, True)
+            rep.add_eval(("replay", 0), True)
+            return rep.finish("replay of one recorded garden case", [])
         if body.get("kind") == "counterexample" and "config" in body:
             import mon_net as MN
             import netgen as NG
@@ -53,6 +61,9 @@ def main():
     import corr_wtw  # noqa: F401
     K.correspondence(rep, "wtw", 2000 if thorough else 250, 8, tag="c07", maxdigits=30)
     seen = mon_probe.run(rep, thorough)
+    # the check / request pair served by a surface: garden irrigation asked of a Land by a Demand node (floating point)
+    import mon_garden
+    mon_garden.run(rep, thorough, PID)
     C.apply_known(rep, PID, {k: (v, "model", {"ops": [], "cls": "model"}, -1) for k, v in seen.items()})
     return rep.finish(RULE, ["no other operation between the check and the request", "offers are wet; requests are non-negative"])
 
